@@ -174,7 +174,7 @@ def gen(rng, nrng, tier):
         N = int(nrng.integers(8, 129))
         x, dk = gen_data(nrng, N, cplx, kind=kinds[i % 4])
         x = np.asarray(x, dtype=complex if cplx else float)
-        m = int(nrng.integers(2, min(N // 2, 16) + 1))
+        m = int(nrng.integers(2, min(N // 2, 16) + 1)) if i % 6 else min(N // 2, 16)   # incl. the largest admissible order
         # reuse a few NFFT values with varying m (per-NFFT state must not leak between calls)
         nfft = nffts_seen[i % 5] if nffts_seen[i % 5] >= 2 * m else 2 * m + (i % 2)
         if not _ok(x, m):
